@@ -1,5 +1,6 @@
 import NA.Model.MergeConf
 import NA.Model.MergeCisco
+import NA.Model.MergeOther
 import NA.Core.IOUtil
 /-! Driver for C18: one `loadSpoc` case per line on the model.
 
@@ -190,9 +191,154 @@ def answer (f4 f6 fr : String) : String :=
 
 end G
 
+/-! ### Ops `linux3`, `panos3`, `nsx3`: ports of the other backends (NA/Model/MergeOther.lean)
+
+Separators as for `cisco3` (U+001C > U+001D > U+001E > U+001F).
+`linux3 gen v4 v6 raw`: file = `routes(1E) 1C lines(1E)`, line = `T 1F name | C 1F name 1F policy | S | A 1F chain 1F text 1F target | P | M | O`,
+                        `-` = file absent.  Answer `ok TAB routes(1E) 1C tables(1E) 1C chain…`, chain = `table 1D name 1D policy 1D rules(1E)`, rule = `text 1F target 1F app`.
+`panos3 gen c4 c6 craw`: conf = `hasEntry 1C devName 1C vsys…`, vsys = `name 1D rules 1D addresses 1D address-groups 1D services 1D service-groups` (lists 1E, items `name 1F val|app`).
+`nsx3 c4 c6 craw`      : conf = `policies(1C) 1D groups(1E) 1D services(1E)`, policy = `id 1F rule 1F rule…`. -/
+namespace O
+open NA.C18
+
+def fs : String := "\x1c"
+def gs : String := "\x1d"
+def rs : String := "\x1e"
+def us : String := "\x1f"
+def splitNE (s sep : String) : List String := if s.isEmpty then [] else s.splitOn sep
+def b2c (b : Bool) : String := if b then "1" else "0"
+def parseGen (g : String) : Gen2 := if g == "old" then .old else .new
+
+-- Linux
+def parseLine (s : String) : Option L.Line :=
+  match s.splitOn us with
+  | ["T", n] => some (.table n)
+  | ["C", n, p] => some (.chain n p)
+  | ["S"] => some .chainShort
+  | ["A", c, t, j] => some (.rule c t j)
+  | ["P"] => some .append
+  | ["M"] => some .commit
+  | ["O"] => some .other
+  | _ => none
+
+def parseLFile (s : String) : Option (List String × List L.Line) :=
+  if s == "-" then some ([], []) else
+  match s.splitOn fs with
+  | [r, l] => ((splitNE l rs).mapM parseLine).map (fun ls => (splitNE r rs, ls))
+  | _ => none
+
+def showLErr : L.Err → String
+  | .redefChain t c => s!"err redefChain {t}{us}{c}"
+  | .dupTable t => s!"err dupTable {t}"
+  | .dupChain c => s!"err dupChain {c}"
+  | .noPolicy c => s!"err noPolicy {c}"
+  | .outside => "err outside"
+  | .unknownCmd => "err unknownCmd"
+
+def encLConf (c : L.Conf) : String :=
+  fs.intercalate ([rs.intercalate c.routes, rs.intercalate c.tables] ++
+    c.chains.map (fun ch => gs.intercalate [ch.table, ch.name, ch.policy,
+      rs.intercalate (ch.rules.map (fun r => us.intercalate [r.text, r.target, b2c r.app]))]))
+
+def linux3 (g f4 f6 fr : String) : String :=
+  match parseLFile f4, parseLFile f6, parseLFile fr with
+  | some (r4, l4), some (r6, l6), some (rr, lr) =>
+    let gen := parseGen g
+    let res : Except L.Err L.Conf := do
+      let c4 ← (L.parseLines gen l4).map (L.toConf r4)
+      let c6 ← (L.parseLines gen l6).map (L.toConf r6)
+      let c ← L.mergeConf c4 c6
+      let cr ← (L.parseLines gen lr).map (L.toConf rr)
+      L.mergeConf c cr
+    match res with
+    | .ok c => "ok\t" ++ encLConf c
+    | .error e => showLErr e
+  | _, _, _ => "bad-input"
+
+-- PAN-OS
+def parseObjs (s : String) : List P.Obj :=
+  (splitNE s rs).map (fun it => match it.splitOn us with
+    | [n, v] => { name := n, val := v }
+    | _ => { name := it })
+
+def parseVsys (s : String) : Option P.Vsys :=
+  match s.splitOn gs with
+  | [n, ru, ad, ag, sv, sg] =>
+    some { name := n
+           rules := (splitNE ru rs).map (fun it => match it.splitOn us with
+             | [rn, a] => { name := rn, app := a == "1" }
+             | _ => { name := it })
+           addresses := parseObjs ad, addressGroups := parseObjs ag, services := parseObjs sv, serviceGroups := parseObjs sg }
+  | _ => none
+
+def parsePConf (s : String) : Option P.Conf :=
+  if s == "-" then some {} else
+  match s.splitOn fs with
+  | e :: dn :: vs => (vs.mapM parseVsys).map (fun l => { hasEntry := e == "1", devName := dn, vsys := l })
+  | _ => none
+
+def encObjs (l : List P.Obj) : String := rs.intercalate (l.map (fun o => o.name ++ us ++ o.val))
+
+def encPConf (c : P.Conf) : String :=
+  fs.intercalate ([b2c c.hasEntry, c.devName] ++ c.vsys.map (fun v => gs.intercalate
+    [v.name, rs.intercalate (v.rules.map (fun r => r.name ++ us ++ b2c r.app)),
+     encObjs v.addresses, encObjs v.addressGroups, encObjs v.services, encObjs v.serviceGroups]))
+
+def showPErr : P.Err → String
+  | .reservedName r => s!"err reservedName {r}"
+  | .devName a b => s!"err devName {a}{us}{b}"
+  | .clash t n v => s!"err clash {t}{us}{n}{us}{v}"
+
+def panos3 (g c4 c6 cr : String) : String :=
+  match parsePConf c4, parsePConf c6, parsePConf cr with
+  | some p4, some p6, some pr =>
+    let gen := parseGen g
+    let res : Except P.Err P.Conf := do
+      let c ← P.mergeSpoc gen p4 p6
+      if let some e := P.checkRaw pr then throw e
+      P.mergeSpoc gen c pr
+    match res with
+    | .ok c => "ok\t" ++ encPConf c
+    | .error e => showPErr e
+  | _, _, _ => "bad-input"
+
+-- NSX
+def parseNConf (s : String) : Option N.Conf :=
+  if s == "-" then some {} else
+  match s.splitOn gs with
+  | [ps, gr, sv] =>
+    some { policies := (splitNE ps fs).map (fun it => match it.splitOn us with
+             | i :: rules => { id := i, rules := rules }
+             | [] => { id := "" })
+           groups := splitNE gr rs, services := splitNE sv rs }
+  | _ => none
+
+def encNConf (c : N.Conf) : String :=
+  gs.intercalate [fs.intercalate (c.policies.map (fun p => us.intercalate (p.id :: p.rules))),
+    rs.intercalate c.groups, rs.intercalate c.services]
+
+def showNErr : N.Err → String
+  | .reservedRule r => s!"err reservedRule {r}"
+  | .groupPrefix g => s!"err groupPrefix {g}"
+  | .reservedGroup g => s!"err reservedGroup {g}"
+  | .servicePrefix s => s!"err servicePrefix {s}"
+
+def nsx3 (c4 c6 cr : String) : String :=
+  match parseNConf c4, parseNConf c6, parseNConf cr with
+  | some n4, some n6, some nr =>
+    match N.checkRaw nr with
+    | some e => showNErr e
+    | none => "ok\t" ++ encNConf (N.mergeSpoc (N.mergeSpoc n4 n6) nr)
+  | _, _, _ => "bad-input"
+
+end O
+
 def answerAny (line : String) : String :=
   match line.splitOn "\t" with
   | ["cisco3", f4, f6, fr] => G.answer f4 f6 fr
+  | ["linux3", g, f4, f6, fr] => O.linux3 g f4 f6 fr
+  | ["panos3", g, f4, f6, fr] => O.panos3 g f4 f6 fr
+  | ["nsx3", f4, f6, fr] => O.nsx3 f4 f6 fr
   | _ => answer line
 
 end NA.Drv.C18
